@@ -24,13 +24,23 @@ enum Via {
     Str,
     String,
     Cow,
+    /// `Cow::Owned` (e.g. what `String::from_utf8_lossy` returns)
+    CowOwned,
+    /// `&String` / `&&str` through the blanket impl for references
+    RefString,
+    RefRefStr,
 }
+
+const ALL_VIAS: [Via; 6] = [Via::Str, Via::String, Via::Cow, Via::CowOwned, Via::RefString, Via::RefRefStr];
 
 fn add(cmd: &mut Command, arg: &str, via: Via) -> bool {
     match via {
         Via::Str => cmd.add_argument(arg).is_ok(),
         Via::String => cmd.add_argument(String::from(arg)).is_ok(),
         Via::Cow => cmd.add_argument(Cow::Borrowed(arg)).is_ok(),
+        Via::CowOwned => cmd.add_argument(Cow::<str>::Owned(arg.to_string())).is_ok(),
+        Via::RefString => cmd.add_argument(&String::from(arg)).is_ok(),
+        Via::RefRefStr => cmd.add_argument(&arg).is_ok(),
     }
 }
 
@@ -171,12 +181,12 @@ fn check_case(name: &str, args: &[&str], acc: &mut Acc, verbose: bool) {
     if is_nontrivial(args) {
         acc.nontrivial += 1;
     }
-    let built: Vec<Option<Command>> = [Via::Str, Via::String, Via::Cow].iter().map(|v| build(name, args, *v)).collect();
-    // the three impls must agree
-    if !(built[0] == built[1] && built[1] == built[2]) {
+    let built: Vec<Option<Command>> = ALL_VIAS.iter().map(|v| build(name, args, *v)).collect();
+    // all string impls must agree
+    if !built.iter().all(|b| *b == built[0]) {
         acc.viol.push(Violation::new(
             "C06/impls-disagree",
-            format!("&str/String/Cow render {:?} differently", args),
+            format!("&str / String / Cow::Borrowed / Cow::Owned / &String / &&str render {:?} differently", args),
             case_json(name, args, Via::Str, "send"),
         ));
     }
@@ -332,7 +342,7 @@ pub fn run(tier: Tier) -> i32 {
     cov.set("accepted_by_builder", json!(acc.accepted));
     cov.set("rejected_by_builder", json!(acc.rejected));
     cov.set("state_meaning", json!("states = distinct (name, argument list) inputs; transitions = request lines rendered by the real code and decoded by the tokenizer port"));
-    cov.set("bounds", json!({"single_argument_max_len": single_len, "pair_max_len": tier.pick(2, 3), "triple_max_len": 1, "impls": ["&str", "String", "Cow<str>"], "paths": ["Connection::send", "CommandList render (N=2)"]}));
+    cov.set("bounds", json!({"single_argument_max_len": single_len, "pair_max_len": tier.pick(2, 3), "triple_max_len": 1, "impls": ["&str", "String", "Cow::Borrowed", "Cow::Owned", "&String", "&&str"], "paths": ["Connection::send", "CommandList render (N=2)"]}));
     cov.samples = vec![
         json!({"args": ["a b"], "wire": show_bytes(&wire_of_command(Command::new("cmd").argument("a b")))}),
         json!({"args": ["\u{e9}~", "x\ty"], "wire": show_bytes(&wire_of_command(Command::new("cmd").argument("\u{e9}~").argument("x\ty")))}),
